@@ -518,6 +518,13 @@ func (w *World) oracleFlags(final bool) {
 			if w.minedIn(a) != nil || w.minedIn(b) != nil {
 				continue // confirmation paths are C06's business
 			}
+			later := ab.at
+			if bb.at > later {
+				later = bb.at
+			}
+			if w.evictedBefore(a, later) || w.evictedBefore(b, later) {
+				continue // the earlier one was dropped from tracking by a confirmed double spend
+			}
 			flagged := false
 			for _, s := range ta.states {
 				if s.UnSafe {
@@ -566,7 +573,11 @@ func (w *World) oracleFlags(final bool) {
 					}
 				}
 				if !ok {
-					w.fail("C06", "loser-cancelled", "no cancelled+unsafe update for the losing tx; winner "+relWord(w.relevant(c)), fmt.Sprintf("block %s confirms %s which double spends delivered unconfirmed tx %s, but no cancelled+unsafe update was sent for it", b.name, c, u))
+					seen := "first seen in the block"
+					if w.bodyBefore(c, b) {
+						seen = "seen before the block"
+					}
+					w.fail("C06", "loser-cancelled", "no cancelled+unsafe update for the losing tx; winner "+relWord(w.relevant(c))+", "+seen, fmt.Sprintf("block %s confirms %s which double spends delivered unconfirmed tx %s, but no cancelled+unsafe update was sent for it", b.name, c, u))
 				}
 			}
 		}
@@ -778,7 +789,7 @@ func (w *World) oracleRequests() {
 	for n, rs := range reqs {
 		sort.Slice(rs, func(i, j int) bool { return rs[i].at < rs[j].at })
 		for i := 1; i < len(rs); i++ {
-			if rs[i].at-rs[i-1].at < int64(3*time.Second) && !w.restartBetween(rs[i-1].at, rs[i].at) {
+			if rs[i].at-rs[i-1].at < int64(3*time.Second) && !w.restartBetween(rs[i-1].at, rs[i].at) && !w.confirmedBetween(n, rs[i-1].at, rs[i].at) {
 				w.fail("C14", "one-request-per-window", fmt.Sprintf("second request after %d ms (%s then %s)", (rs[i].at-rs[i-1].at)/1e6/500*500, srcClass(rs[i-1].src), srcClass(rs[i].src)),
 					fmt.Sprintf("tx %s requested from %s at %d ms and from %s at %d ms", n, rs[i-1].src, rs[i-1].at/1e6, rs[i].src, rs[i].at/1e6))
 			}
@@ -798,9 +809,52 @@ func (w *World) oracleRequests() {
 				}
 			}
 			for _, r := range rs {
-				if processedAt >= 0 && r.at > processedAt {
+				if processedAt >= 0 && r.at > processedAt && !w.announcedBetween(n, processedAt, r.at) {
 					w.fail("C14", "confirmed-forgotten", "requested after its block was processed", fmt.Sprintf("tx %s confirmed in block processed at %d ms, requested from %s at %d ms", n, processedAt/1e6, r.src, r.at/1e6))
 				}
+			}
+		}
+	}
+	// re-request: the asked peer stayed silent past the window and another announcer was active
+	for n, rs := range reqs {
+		if _, ok := w.firstBody(n); ok || w.minedIn(n) != nil || len(rs) == 0 {
+			continue
+		}
+		r0 := rs[0]
+		deadline := r0.at + int64(3*time.Second)
+		if !w.stayedReady(r0.at) || w.restartBetween(r0.at, w.S.Now) {
+			continue
+		}
+		for _, a := range w.arrivals[n] {
+			if a.kind != "inv" || a.src == r0.src || !a.ready || a.at < r0.at || a.at >= deadline {
+				continue
+			}
+			// a.src announced it while the first request was active, so it is the fallback source
+			pc := w.connOf(a.src)
+			if a.src == "T" {
+				pc = w.P
+			}
+			if pc == nil {
+				continue
+			}
+			var activity int64 = -1
+			for _, t := range pc.sentAt {
+				if t > deadline {
+					activity = t
+					break
+				}
+			}
+			if activity < 0 {
+				continue
+			}
+			again := false
+			for _, r := range rs[1:] {
+				if r.at >= deadline {
+					again = true
+				}
+			}
+			if !again {
+				w.fail("C14", "re-request-after-window", "no re-request from the other announcer ("+srcClass(a.src)+") after the window", fmt.Sprintf("tx %s: requested from %s at %d ms, never delivered; %s announced it at %d ms and was active at %d ms (window ended %d ms) but was never asked", n, r0.src, r0.at/1e6, a.src, a.at/1e6, activity/1e6, deadline/1e6))
 			}
 		}
 	}
@@ -890,4 +944,62 @@ func (w *World) crashExempt(n string) bool {
 		}
 	}
 	return true
+}
+
+// bodyBefore: the body of tx c had reached the node (in sync) before block b was processed.
+func (w *World) bodyBefore(c string, b *tblock) bool {
+	var processedAt int64 = -1
+	for _, e := range w.H[0].events {
+		if e.Kind == "headers" && e.Hash == b.hash {
+			processedAt = e.At
+		}
+	}
+	for _, a := range w.arrivals[c] {
+		if a.kind == "tx" && a.ready && processedAt >= 0 && a.at <= processedAt {
+			return true
+		}
+	}
+	return false
+}
+
+// confirmedBetween: the tx's confirming block was processed between the two instants (the node
+// keeps no record of confirmed txs, so a fresh announcement after that starts over).
+func (w *World) confirmedBetween(n string, a, b int64) bool {
+	blk := w.minedIn(n)
+	if blk == nil {
+		return false
+	}
+	for _, e := range w.H[0].events {
+		if e.Kind == "headers" && e.Hash == blk.hash && e.At >= a && e.At <= b {
+			return true
+		}
+	}
+	return false
+}
+
+// announcedBetween: a new inv for the tx arrived in (a, b].
+func (w *World) announcedBetween(n string, a, b int64) bool {
+	for _, x := range w.arrivals[n] {
+		if x.kind == "inv" && x.at >= a && x.at <= b {
+			return true
+		}
+	}
+	return false
+}
+
+// evictedBefore: a block confirming a tx that conflicts with name was processed before t.
+func (w *World) evictedBefore(name string, t int64) bool {
+	for _, b := range w.Tree.blocks {
+		for _, c := range b.txs {
+			if !w.conflicts(c, name) {
+				continue
+			}
+			for _, e := range w.H[0].events {
+				if e.Kind == "headers" && e.Hash == b.hash && e.At <= t {
+					return true
+				}
+			}
+		}
+	}
+	return false
 }
